@@ -350,10 +350,12 @@ func NewDistKeyHandler(c *Config) (*DistKeyGenerator, error) {
 		validShares: make(map[uint32]kyber.Scalar),
 		allPublics:  make(map[uint32]*share.PubPoly),
 	}
+	verifTrace("New", "d", dkg)
 	return dkg, err
 }
 
 func (d *DistKeyGenerator) Deals() (*DealBundle, error) {
+	defer verifTrace("Deals", "d", d)
 	if !d.canIssue {
 		return nil, errors.New("new members can't issue deals")
 	}
@@ -401,6 +403,7 @@ func (d *DistKeyGenerator) Deals() (*DealBundle, error) {
 // missing deals. It returns an error if the node is not in the right state, or
 // if there is not enough valid shares, i.e. the dkg is failing already.
 func (d *DistKeyGenerator) ProcessDeals(bundles []*DealBundle) (*ResponseBundle, error) {
+	defer verifTrace("ProcessDeals", "d", d, "in", bundles)
 	if d.canIssue && d.state != DealPhase {
 		// oldnode member is not in the right state
 		return nil, fmt.Errorf("processdeals can only be called "+
@@ -582,6 +585,7 @@ func (d *DistKeyGenerator) ProcessResponses(bundles []*ResponseBundle) (
 	res *Result,
 	jb *JustificationBundle,
 	err error) {
+	defer verifTrace("ProcessResponses", "d", d, "in", bundles)
 
 	if !d.canReceive {
 		// if we are a old node that will leave: ProcessDeals, which is optional
@@ -761,6 +765,7 @@ func (d *DistKeyGenerator) ProcessResponses(bundles []*ResponseBundle) (
 // group of the dkg: indeed a node leaving the group don't need to process
 // justifications, and can simply leave the protocol.
 func (d *DistKeyGenerator) ProcessJustifications(bundles []*JustificationBundle) (*Result, error) {
+	defer verifTrace("ProcessJustifications", "d", d, "in", bundles)
 	if !d.canReceive {
 		// an old node leaving the group do not need to process justifications.
 		// Here we simply return nil to avoid requiring higher level library to
